@@ -232,11 +232,15 @@ func run34(t *testing.T, pl any) *simcore.Result {
 				// classify (never decides whether this is a violation): did the state database record an
 				// error that ExecuteStateless did not surface, or did nothing at all notice the gap?
 				kind := []string{"node", "code", "header"}[min(f.Kind, 2)]
-				class := "no-error-recorded-anywhere"
 				if kind == "header" {
-					// core.GetHashFn: chain.GetHeader returns nil for the missing ancestor and BLOCKHASH evaluates to zero
-					class = "missing-ancestor-reads-as-zero-hash"
+					// Observation, not judged: the property speaks of trie nodes (and the witness' code blobs are
+					// state too); an ancestor header is neither. core.GetHashFn gets nil from chain.GetHeader for
+					// the missing ancestor and BLOCKHASH evaluates to zero, nothing records an error.
+					res.Probes["header-removed-different-result"]++
+					lh = lh.String("H")
+					continue
 				}
+				class := "no-error-recorded-anywhere"
 				note := ""
 				func() {
 					defer func() { recover() }()
